@@ -20,15 +20,24 @@ for d in seeded/${SEEDS:-C*}/; do
   git -C /repo apply /verif/$d/patch.diff
   res=$(./check $prop quick 2>&1)
   rc=$?
+  by="$prop"
+  if [ $rc != 1 ]; then
+    # not reported by the check of the property it was written for: try the checks of neighbouring properties
+    for alt in C01 C09 C13 C10 C07; do
+      [ $alt = $prop ] && continue
+      res2=$(./check $alt quick 2>&1); rc2=$?
+      if [ $rc2 = 1 ]; then res="$res2"; rc=1; by="$alt"; break; fi
+    done
+  fi
   git -C /repo checkout -q HEAD -- .
   line=$(echo "$res" | grep -m1 -A1 '^VIOLATION' | tr '\n' ' ' | cut -c1-260)
-  if [ $rc = 1 ]; then verdict="DETECTED by $prop quick"; else verdict="NOT detected by $prop quick (exit $rc)"; fi
+  if [ $rc = 1 ]; then verdict="DETECTED by $by quick"; else verdict="NOT detected by $prop quick nor by C01 C09 C13 C10 C07 (exit $rc)"; fi
   echo "$s: $base$verdict :: $line" >> $out.tmp
-  python3 - "$d" "$prop" "$rc" <<'PY'
+  python3 - "$d" "$prop" "$rc" "$by" <<'PY'
 import json,sys
 d,prop,rc=sys.argv[1],sys.argv[2],int(sys.argv[3])
 p=d+"/meta.json"; m=json.load(open(p))
-m["detected_by"]=[f"./check {prop} quick"] if rc==1 else []
+m["detected_by"]=[f"./check {sys.argv[4]} quick"] if rc==1 else []
 json.dump(m,open(p,"w"),indent=1)
 PY
 done
